@@ -63,7 +63,7 @@ theorem mem_queued_cancelBatches (p : Batch → Bool) (s : State) (tx : Tx) :
     · exact Or.inr h
 
 theorem queued_cleanup (z : State) : queued (cleanupCalls (cleanupBatches z)) = queued (cleanupBatches z) := by
-  obtain ⟨fm, hfm⟩ := cleanupCalls_core (cleanupBatches z)
+  obtain ⟨fm, er, hfm⟩ := cleanupCalls_core (cleanupBatches z)
   rw [hfm]
   unfold cleanupCallsCore
   obtain ⟨h1, h2, _⟩ := foldl_refundCall (expiredCalls (heightOf callCleanupSrc (cleanupBatches z)) (cleanupBatches z).calls)
@@ -277,8 +277,8 @@ theorem Q_cancel {s : State} {x : Ext} (hq : Q s x) (id : Nat) (who : Addr) :
             congr 2
             omega
 
-theorem Q_incFee {s : State} {x : Ext} (hq : Q s x) (hi : Inv s) (id : Nat) (who : Addr) (t add : Nat) :
-    Q (step s (.incFee id who t add)).1 (x.nextStd s (.incFee id who t add)) := by
+theorem Q_incFee {s : State} {x : Ext} (hq : Q s x) (hi : Inv s) (id : Nat) (who : Addr) (t add : Nat) (evm : Bool) :
+    Q (step s (.incFee id who t add evm)).1 (x.nextStd s (.incFee id who t add evm)) := by
   simp only [step, Ext.nextStd]
   unfold doIncFee
   split
@@ -345,7 +345,7 @@ theorem Q_step {s : State} {x : Ext} (hq : Q s x) (hi : Inv s) (op : Op) : Q (st
   | send a d t am f => exact Q_send hq hi a d t am f
   | psend a d t am f => exact Q_psend hq hi a d t am f
   | cancel id who => exact Q_cancel hq id who
-  | incFee id who t add => exact Q_incFee hq hi id who t add
+  | incFee id who t add evm => exact Q_incFee hq hi id who t add evm
   | reqBatch t mf bf fr =>
     refine Q_of hq rfl rfl ?_ ?_ ?_
     · simp only [step]
@@ -446,7 +446,7 @@ theorem step_settled_calls (s : State) (op : Op) :
          rcases he with he | rfl
          · exact Or.inl he
          · exact Or.inr (Or.inl rfl))
-  | incFee id who t add =>
+  | incFee id who t add evm =>
     simp only [step]; unfold doIncFee
     repeat' split
     all_goals exact fun e he => Or.inl he
@@ -535,7 +535,7 @@ theorem R_step {s : State} {x : Ext} (hr : R s x) (hn : N s x) (op : Op) : R (st
     | pcall a r to d m cs => simp only [Ext.nextStd]; exact mem_append_left _ hc
     | send a d t am f => rw [(next_send_fields x s a d t am f).2.2.2.1]; exact hc
     | psend a d t am f => rw [(next_psend_fields x s a d t am f).2.2.2.1]; exact hc
-    | incFee id who t add => rw [(next_incFee_fields x s id who t add).2.2.2.1]; exact hc
+    | incFee id who t add evm => rw [(next_incFee_fields x s id who t add evm).2.2.2.1]; exact hc
     | observe h ev => cases ev <;> exact hc
     | reqBatch t mf bf fr => exact hc
     | cancel id who => exact hc
